@@ -103,7 +103,7 @@ func freePort() (int, error) {
 	return l.Addr().(*net.TCPAddr).Port, nil
 }
 
-func startSubmission(cfgText string) (*smtp.Endpoint, string, error) {
+func startSubmission(cfgText string, globals map[string]interface{}) (*smtp.Endpoint, string, error) {
 	// The endpoint listens on a loopback TCP port and on a unix socket.
 	// Ephemeral ports are a resource shared with every other check running on
 	// this machine: when none can be had (listening or dialing) the unix
@@ -118,7 +118,7 @@ func startSubmission(cfgText string) (*smtp.Endpoint, string, error) {
 		if err != nil {
 			return nil, err
 		}
-		if err := mx.InitModule(mod, cfgText, map[string]interface{}{}); err != nil {
+		if err := mx.InitModule(mod, cfgText, globals); err != nil {
 			return nil, err
 		}
 		return mod.(*smtp.Endpoint), nil
@@ -215,7 +215,7 @@ func playWire(t *testing.T, r *rep.Reporter, c *rep.Case, idx int, p *prng.R, e 
 		if e.x != nil {
 			canon = e.pickAccountName(p)
 		}
-		name, vk := spell(p, canon, prng.Pick(p, variantKinds))
+		name, vk := e.spellMgmt(p, canon, prng.Pick(p, variantKinds))
 		sc := prng.Pick(p, schemes)
 		pw := genPassword(p, sc.algo == pass_table.HashBcrypt)
 		err := e.pt.CreateUserHash(name, pw, sc.algo, sc.opts)
@@ -244,7 +244,7 @@ func playWire(t *testing.T, r *rep.Reporter, c *rep.Case, idx int, p *prng.R, e 
 			if j == 1 && p.Bool() {
 				break
 			}
-			name, vk := spell(p, canon, prng.Pick(p, variantKinds))
+			name, vk := e.spellMgmt(p, canon, prng.Pick(p, variantKinds))
 			sc := prng.Pick(p, schemes)
 			pw := genPassword(p, sc.algo == pass_table.HashBcrypt)
 			err := e.pt.CreateUserHash(name, pw, sc.algo, sc.opts)
@@ -265,13 +265,13 @@ func playWire(t *testing.T, r *rep.Reporter, c *rep.Case, idx int, p *prng.R, e 
 			o := runPlain(e.sasl, "", e.nmap.invert(p, canon), a.pw)
 			hist = append(hist, opRec{Op: "auth-before-change (direct)", Canon: canon, Pw: showPw(a.pw), PwLen: len(a.pw), Plain: &o})
 		}
-		name, vk := spell(p, canon, prng.Pick(p, variantKinds))
+		name, vk := e.spellMgmt(p, canon, prng.Pick(p, variantKinds))
 		if err := e.pt.DeleteUser(name); err == nil {
 			e.model.del(canon)
 		}
 		hist = append(hist, opRec{Op: "delete", Name: name, Canon: canon, Variant: vk})
 		if p.Chance(2, 3) {
-			name, vk := spell(p, canon, prng.Pick(p, variantKinds))
+			name, vk := e.spellMgmt(p, canon, prng.Pick(p, variantKinds))
 			sc := prng.Pick(p, schemes)
 			pw := genPassword(p, sc.algo == pass_table.HashBcrypt)
 			err := e.pt.CreateUserHash(name, pw, sc.algo, sc.opts)
@@ -286,7 +286,7 @@ func playWire(t *testing.T, r *rep.Reporter, c *rep.Case, idx int, p *prng.R, e 
 	}
 	if ex := e.model.existing(); len(ex) > 0 && p.Chance(1, 6) {
 		canon := prng.Pick(p, ex)
-		name, vk := spell(p, canon, prng.Pick(p, variantKinds))
+		name, vk := e.spellMgmt(p, canon, prng.Pick(p, variantKinds))
 		pw := genPassword(p, true)
 		err := e.pt.SetUserPassword(name, pw)
 		rec := opRec{Op: "set-password", Name: name, Canon: canon, Variant: vk, Pw: showPw(pw), PwLen: len(pw), Scheme: "bcrypt-default"}
@@ -298,21 +298,23 @@ func playWire(t *testing.T, r *rep.Reporter, c *rep.Case, idx int, p *prng.R, e 
 		hist = append(hist, rec)
 	}
 
+	// fifth widening: auth_map / auth_map_normalize stand in the endpoint
+	// block, in the global scope, or in both (scope_test.go)
+	sp := planScope(r.Seed(), idx, e, id)
 	var cfg strings.Builder
 	fmt.Fprintf(&cfg, "hostname mx.c14.test\ntls off\nauth &c14pt_%s\nsasl_login yes\n", id)
-	if e.nmap.kind == mapExt {
-		if e.nmap.cfgText != "" {
-			fmt.Fprintf(&cfg, "auth_map %s\n", e.nmap.cfgText)
-		}
-	} else if e.nmap.tbl != nil {
-		fmt.Fprintf(&cfg, "auth_map &c14map_%s\n", id)
-	}
-	fmt.Fprintf(&cfg, "auth_map_normalize %s\n", e.norm)
+	cfg.WriteString(sp.block)
 	fmt.Fprintf(&cfg, "deliver_to &c14tgt_%s\n", id)
-	endp, addr, err := startSubmission(cfg.String())
+	globals, err := readGlobalScope(sp.global)
 	if err != nil {
-		t.Fatalf("harness: endpoint init: %v\n%s", err, cfg.String())
+		t.Fatalf("harness: global scope: %v\n%s", err, sp.global)
 	}
+	endp, addr, err := startSubmission(cfg.String(), globals)
+	if err != nil {
+		t.Fatalf("harness: endpoint init: %v\nglobal scope:\n%s\nendpoint block:\n%s", err, sp.global, cfg.String())
+	}
+	r.Count("wire_scenarios_auth_map_in="+sp.mapIn, 1)
+	r.Count("wire_scenarios_auth_map_normalize_in="+sp.normIn, 1)
 	defer func() {
 		if !closeEndpoint(endp, addr) {
 			r.Count("endpoint_close_abandoned_by_watchdog", 1)
@@ -324,6 +326,8 @@ func playWire(t *testing.T, r *rep.Reporter, c *rep.Case, idx int, p *prng.R, e 
 		w := e.witness(hist)
 		delete(w, "history")
 		w["config"], w["setup"], w["transcripts"] = cfg.String(), hist, transcripts
+		w["global_scope_config"] = sp.global
+		w["auth_map_in"], w["auth_map_normalize_in"] = sp.mapIn, sp.normIn
 		return w
 	}
 	nontrivial := false
@@ -443,7 +447,7 @@ func playWire(t *testing.T, r *rep.Reporter, c *rep.Case, idx int, p *prng.R, e 
 			if !(e.norm == "auto" || e.norm == "precis_casefold") && p.Bool() {
 				kinds = []string{"canon"}
 			}
-			name, vk := spell(p, canonLogin, prng.Pick(p, kinds))
+			name, vk := e.spellLogin(p, canonLogin, prng.Pick(p, kinds))
 			canonAcct, mapped := e.resolve(name, canonLogin)
 			var a *acct
 			if mapped {
@@ -456,7 +460,7 @@ func playWire(t *testing.T, r *rep.Reporter, c *rep.Case, idx int, p *prng.R, e 
 			}
 			if attack {
 				pw = partnerPw
-				r.Count("x_wire_attempts_with_password_of_partner_account", 1)
+				r.Count(e.x.cp+"wire_attempts_with_password_of_partner_account", 1)
 			}
 			if s == nsteps-1 && a != nil && a.exists && p.Chance(2, 3) {
 				pw = a.pw // end most connections with a good login
@@ -491,7 +495,7 @@ func playWire(t *testing.T, r *rep.Reporter, c *rep.Case, idx int, p *prng.R, e 
 			case 3: // foreign authorization identity, otherwise valid or not
 				mech = "PLAIN-foreign-authzid"
 				other, co := e.foreignAuthzid(p, canonLogin, canonAcct, mapped)
-				zid, _ := spell(p, other, prng.Pick(p, variantKinds))
+				zid, _ := e.spellLogin(p, other, prng.Pick(p, variantKinds))
 				if co && a != nil && a.exists && p.Chance(3, 4) {
 					pw = a.pw // a co-owner of a shared account with valid credentials
 					expect = true
@@ -538,21 +542,41 @@ func playWire(t *testing.T, r *rep.Reporter, c *rep.Case, idx int, p *prng.R, e 
 					default:
 						cause = relation(pw, a.pw, a.stale, e.model.otherPasswords(canonAcct))
 					}
-					c.Violation(fmt.Sprintf("wire-auth/accepted-wrong-password/mech=%s/%s", mech, cause),
+					c.Violation(fmt.Sprintf("wire-auth/accepted-wrong-password/mech=%s/%s%s", mech, cause, sp.tag()),
 						fmt.Sprintf("AUTH %s answered 235 for user %q password %q although the reference says no", mech, name, showPw(pw)), wit())
 				} else {
 					c.Violation("wire-auth/accepted/"+cause, fmt.Sprintf("AUTH exchange of kind %s answered 235", mech), wit())
 				}
 			case !ok && expect:
-				c.Violation(fmt.Sprintf("wire-auth/refused-current-password/mech=%s/map=%s", mech, e.nmap.name()),
+				c.Violation(fmt.Sprintf("wire-auth/refused-current-password/mech=%s/map=%s%s", mech, e.nmap.name(), sp.tag()),
 					fmt.Sprintf("AUTH %s answered %d for the current password of account %q", mech, code, canonAcct), wit())
+			}
+			if ok == expect && mode <= 2 {
+				// what the run observed per configuration scope (fifth widening)
+				viaMap := mapped && canonAcct != canonLogin
+				switch {
+				case ok && viaMap:
+					r.Count("wire_auth_235_via_mapped_name_with_auth_map_in="+sp.mapIn, 1)
+				case !ok && !mapped:
+					r.Count("wire_auth_refused_name_without_mapping_with_auth_map_in="+sp.mapIn, 1)
+				}
+				if ok && vk != "canon" {
+					r.Count("wire_auth_235_via_noncanonical_spelling_with_auth_map_normalize_in="+sp.normIn, 1)
+				}
+				if e.x != nil && e.x.idn && strings.HasPrefix(vk, "idn-") {
+					if ok {
+						r.Count("idn_wire_auth_235_via_"+idnClass(vk)+"_spelling_of_domain", 1)
+					} else if a != nil && a.exists {
+						r.Count("idn_wire_refused_wrong_password_via_"+idnClass(vk)+"_spelling_of_domain", 1)
+					}
+				}
 			}
 			if ok {
 				authed = true
 				nAuthOK++
 				if e.x != nil && expect {
-					r.Count("x_wire_auth_235_on_store="+e.x.backend, 1)
-					r.Count("x_wire_auth_235_via_map="+e.nmap.name(), 1)
+					r.Count(e.x.cp+"wire_auth_235_on_store="+e.x.backend, 1)
+					r.Count(e.x.cp+"wire_auth_235_via_map="+e.nmap.name(), 1)
 				}
 			} else {
 				nAuthRefused++
